@@ -9,7 +9,7 @@ check("C02",
   "bounded symbolic execution of the real Resolver + term-class operator overloads on ASTs whose variable names are z3 variables (aliasing decided by the solver), differential against a reference set algebra",
   "model_checking",
   "For every formula shape of the documented language within the size bound, the real Resolver and the operator overloads of Intercept/NegatedIntercept/Term/GroupSpecificTerm/Response/Model run on ASTs whose variable names are solver variables; each == between names is a z3-decided fork, so one path covers every naming with that aliasing pattern. The resulting response, common-term set and group-term set must equal the reference Wilkinson-Rogers/lme4 expansion; an exception for an in-language formula is a violation. Exhaustive within the stated bounds.",
-  "Trusted: the reference algebra (ref_T/ref_chain in vf/props/c02.py) written from the statement; z3. Scanner/Parser are bypassed (C01 covers them).",
+  "Trusted: the reference algebra (ref_T/ref_chain in vf/props/c02.py) written from the statement; z3. Scanner/Parser are bypassed (C01 covers them). A plain-API part (not a solver verdict) runs 400 formulas with names that parse as numbers / keywords / back-quoted names against the reference expansion.",
   "DESIGN.md section 4 C02")
 
 check("C04",
@@ -30,7 +30,7 @@ check("C08",
   "relational symbolic execution: two real runs of design_matrices (data vs transformed data) on z3-real cells compared entrywise by z3",
   "model_checking",
   "For every generated (formula, flavour, transformation) the real pipeline runs on a frame with z3-real numeric cells and on its transformed copy (row permutation with/without reset_index, index relabelling incl. duplicate/str/float labels, reversed column order, added unused columns with NaN, NaN-drop under a duplicate index); response, common and group matrices must be equal as z3 terms up to the row permutation, and labels, slices, levels and fitted transform parameters identical.",
-  "Trusted: z3 (incl. its polynomial rewriter used to give equal sums one quotient/root variable); stubs listed in evidence; std != 0. Transformations, formulas and flavours are enumerated. bs() excluded (compiled percentile/splev).",
+  "Trusted: z3 (incl. its polynomial rewriter used to give equal sums one quotient/root variable); stubs listed in evidence; std != 0. Transformations, formulas and flavours are enumerated. Four bs() formulas run on concrete float frames (compiled percentile/splev) with exact float comparison.",
   "DESIGN.md section 4 C08")
 
 check("C09",
@@ -114,5 +114,5 @@ check("C07",
   "exhaustive exploration of operation histories (decision variables) through the real API on z3-real cells; every result compared by z3 with the same operation on freshly imported modules, earlier results re-read after every step",
   "model_checking",
   "Every history of K operations (build a design, common/group evaluate_new_data on an existing design on one of three frames with disjoint z3 symbols and an unseen level, and for K = 4 configuration changes; initial mode and first build are case parameters) is executed on one live import of formulae. After each step the result must equal, as z3 terms and including slices, labels, term-wise sub-matrices and raised exception type, the same operation performed on freshly imported formulae modules; every earlier design is re-snapshotted and must be unchanged; the caller's frames (cells by identity, dtypes, index, columns) and namespace must be untouched.",
-  "Trusted: z3; stubs in evidence; fresh process-state is realised by re-importing the formulae package (new registries, config, classes) rather than by a new OS process. K = 3 (quick) / 4 (thorough) over a pool of 3 / 5 formulas.",
+  "Trusted: z3; stubs in evidence; fresh process-state is realised by re-importing the formulae package (new registries, config, classes) rather than by a new OS process. K = 4 over a pool of 2 (quick) / 4 (thorough) formulas and 3 frames. Two plain-API parts (not solver verdicts): three interpreter processes with different string-hash seeds must agree on 12 formulas; objects of the caller passed by name are compared before / after 7 formulas.",,
   "DESIGN.md section 4 C07")
